@@ -10,6 +10,7 @@ use std::sync::atomic::{AtomicUsize, Ordering};
 use vh_alloc as la;
 
 mod gen;
+#[cfg(feature = "std")]
 mod hostile;
 mod recycle;
 
@@ -965,6 +966,12 @@ fn main() {
     let f = std::fs::OpenOptions::new().create(true).append(true).open(&outp).expect("open out");
     let mut m = Machine::new();
     m.sink = Some(f);
+    #[cfg(not(feature = "std"))]
+    if hostile_file.is_some() {
+        eprintln!("--hostile needs the std feature");
+        std::process::exit(2);
+    }
+    #[cfg(feature = "std")]
     if let Some(hf) = hostile_file {
         let text = std::fs::read_to_string(&hf).expect("read hostile cases");
         let mut out = String::new();
